@@ -6,6 +6,7 @@
 import LbzVerif.Lemmas.ScanLps
 import LbzVerif.Lemmas.ScanMiniTab
 import LbzVerif.Lemmas.ScanBigTab
+import LbzVerif.Lemmas.ScanOcc
 
 namespace LbzVerif.Props.C14
 
@@ -35,5 +36,92 @@ theorem big_is_mini8 : ∀ s < 49, ∀ c < 256,
   Lemmas.ScanBigTab.big_rows
 
 example : big 0 0x31 = 8 ∧ big 40 0x59 = 48 ∧ big 48 0 = 48 := by decide
+
+/-- `scan()` is exact (all word lists = one input block, all consistent
+buffer states, all `skip`).  Let `tail` be the bits still to be read, minus the
+`effStart bs skip` bits that the `skip` prologue really drops (0 when
+`skip ≤ live`: the code then ignores `skip`; otherwise `live` plus the rest of
+`skip` rounded up to whole words in `unsigned` arithmetic, clamped at the end of
+the block).  Then exactly one of the following holds.
+
+* `tail` contains a header candidate (pattern, then 32 bits, wholly inside the
+  block and beginning at or after the effective start); `i` is the end of the
+  FIRST one; `scan` returns `OK` and leaves a consistent stream over the same
+  words whose remaining bits are exactly `tail.drop i` — it is positioned right
+  after the 32 bits that follow the pattern, and nowhere else.
+* `tail` contains no such candidate; `scan` returns `MORE` and has consumed the
+  block (`live = 0`, `buff = 0`, `data = limit`).
+
+No `skip < 2^32` hypothesis is needed for the model (the model wraps like the
+code does); the C `unsigned` parameter only ever carries such values. -/
+theorem scan_correct (bs : BS) (skip : Nat) (hc : Consistent bs) :
+    (∃ i, firstOcc ((rem bs).drop (effStart bs skip)) i ∧
+        (scan bs skip).1 = .ok ∧ Consistent (scan bs skip).2 ∧
+        (scan bs skip).2.words = bs.words ∧
+        rem (scan bs skip).2 = ((rem bs).drop (effStart bs skip)).drop i) ∨
+    ((∀ i, ¬ occursAt ((rem bs).drop (effStart bs skip)) i) ∧
+        scan bs skip =
+          (.more, { live := 0, buff := 0, data := bs.words.length, words := bs.words })) :=
+  Lemmas.ScanOcc.scan_correct' bs skip hc
+
+/-- The hypothesis is satisfiable and both branches are taken on concrete
+streams: 5 buffered bits, then the pattern at bit offset 5, 32 more bits, ...;
+the same block cut 1 word short (only 16 of the 32 trailing bits present). -/
+example :
+    Consistent ⟨5, 0xf800000000000000, 0, [0x31415926, 0x53590000, 7, 9]⟩ ∧
+    scan ⟨5, 0xf800000000000000, 0, [0x31415926, 0x53590000, 7, 9]⟩ 0 =
+      (.ok, ⟨16, 0x0007000000000000, 3, [0x31415926, 0x53590000, 7, 9]⟩) ∧
+    Consistent ⟨0, 0, 0, [0x31415926, 0x53590000]⟩ ∧
+    scan ⟨0, 0, 0, [0x31415926, 0x53590000]⟩ 0 =
+      (.more, ⟨0, 0, 2, [0x31415926, 0x53590000]⟩) := by
+  refine ⟨⟨by decide, by decide, by decide, by decide, by decide⟩, by decide +kernel,
+    ⟨by decide, by decide, by decide, by decide, by decide⟩, by decide +kernel⟩
+
+/-- `OK` is returned iff there is a candidate after the effective start. -/
+theorem scan_ok_iff (bs : BS) (skip : Nat) (hc : Consistent bs) :
+    (scan bs skip).1 = .ok ↔ ∃ i, occursAt ((rem bs).drop (effStart bs skip)) i := by
+  rcases scan_correct bs skip hc with ⟨i, h1, h2, -⟩ | ⟨h1, h2⟩
+  · exact ⟨fun _ => ⟨i, h1.1⟩, fun _ => h2⟩
+  · constructor
+    · intro h; rw [h2] at h; cases h
+    · rintro ⟨i, hi⟩; exact absurd hi (h1 i)
+
+example : (scan ⟨0, 0, 0, [0x31415926, 0x53590000, 0]⟩ 0).1 = .ok := by decide +kernel
+
+/-- Repeated calls (as `do_scan` makes them): once the first candidate, ending
+at `i`, has been reported, any other candidate ending at `j` either begins
+inside the 80 bits of the reported one, or lies wholly in what is left
+(`tail.drop i`), where the next call will find it by `scan_correct`. -/
+theorem scan_rescan (tail : List Bool) (i j : Nat) (hi : firstOcc tail i)
+    (hj : occursAt tail j) :
+    j = i ∨ (i < j ∧ j < i + 80) ∨ occursAt (tail.drop i) (j - i) := by
+  have hle := hi.2 j hj
+  rcases Nat.lt_or_ge j (i + 80) with h | h
+  · rcases Nat.eq_or_lt_of_le hle with e | l
+    · exact Or.inl e.symm
+    · exact Or.inr (Or.inl ⟨l, h⟩)
+  · refine Or.inr (Or.inr ?_)
+    obtain ⟨j1, j2, pre, hpre⟩ := (Lemmas.ScanOcc.occursAt_iff _ _).mp hj
+    refine (Lemmas.ScanOcc.occursAt_iff _ _).mpr ⟨by omega, by simp; omega, ?_⟩
+    have hlen : pre.length + 48 = j - 32 := by
+      have := congrArg List.length hpre
+      simp [Lemmas.ScanMiniTab.P_length] at this
+      omega
+    have : (tail.drop i).take (j - i - 32) = pre.drop i ++ P := by
+      rw [show j - i - 32 = (j - 32) - i by omega, ← List.drop_take, ← hpre,
+        List.drop_append]
+      have : i - pre.length = 0 := by omega
+      rw [this, List.drop_zero]
+    rw [this]
+    exact List.suffix_append _ _
+
+example : firstOcc (P ++ List.replicate 32 false) 80 ∧
+    occursAt (P ++ List.replicate 32 false) 80 := by
+  have h : occursAt (P ++ List.replicate 32 false) 80 :=
+    ⟨by decide, [], List.replicate 32 false, by decide, by decide⟩
+  refine ⟨⟨h, ?_⟩, h⟩
+  intro j hj
+  have := ((Lemmas.ScanOcc.occursAt_iff _ _).mp hj).1
+  exact this
 
 end LbzVerif.Props.C14
